@@ -103,21 +103,47 @@ func vfH_C19_primitives() {
 			}
 		}
 		vfAssert(held == int(n), "C19: Semaphore(n) / MaxConcurrentFlow(n) admitted fewer than n although free")
-	case 4: // RWLock: one writer or any number of readers
+	case 4: // RWLock: one writer or any number of readers; plain calls or the ...WithData variants
 		rw1, rw2 := db.RWLock(key, 0, 10), db.RWLock(key, 0, 10)
+		wd := vfChoice("withData", 2) == 1
+		val := func() *protocol.LockCommandData { return protocol.NewLockCommandDataSetString("v") }
+		wlock := func(rw *client.RWLock) bool {
+			if wd {
+				return vfOK(rw.LockWithData(val()))
+			}
+			return vfOK(rw.Lock())
+		}
+		wunlock := func(rw *client.RWLock) bool {
+			if wd {
+				return vfOK(rw.UnlockWithData(val()))
+			}
+			return vfOK(rw.Unlock())
+		}
+		rlock := func(rw *client.RWLock) bool {
+			if wd {
+				return vfOK(rw.RLockWithData(val()))
+			}
+			return vfOK(rw.RLock())
+		}
+		runlock := func(rw *client.RWLock) bool {
+			if wd {
+				return vfOK(rw.RUnlockWithData(val()))
+			}
+			return vfOK(rw.RUnlock())
+		}
 		if vfChoice("first", 2) == 0 {
-			vfAssert(vfOK(rw1.Lock()), "C19: RWLock write lock on a free key failed")
-			vfAssert(!vfOK(rw2.RLock()), "C19: a reader was admitted while a writer holds the key")
-			vfAssert(!vfOK(rw2.Lock()), "C19: a second writer was admitted")
-			vfAssert(vfOK(rw1.Unlock()), "C19: writer unlock failed")
-			vfAssert(vfOK(rw2.RLock()), "C19: reader not admitted after the writer left")
+			vfAssert(wlock(rw1), "C19: RWLock write lock on a free key failed")
+			vfAssert(!rlock(rw2), "C19: a reader was admitted while a writer holds the key")
+			vfAssert(!wlock(rw2), "C19: a second writer was admitted")
+			vfAssert(wunlock(rw1), "C19: writer unlock failed")
+			vfAssert(rlock(rw2), "C19: reader not admitted after the writer left")
 		} else {
-			vfAssert(vfOK(rw1.RLock()) && vfOK(rw2.RLock()) && vfOK(rw1.RLock()), "C19: readers are not admitted together")
-			vfAssert(!vfOK(rw2.Lock()), "C19: a writer was admitted while readers hold the key")
-			vfAssert(vfOK(rw1.RUnlock()) && vfOK(rw1.RUnlock()), "C19: reader unlock failed")
-			vfAssert(!vfOK(rw1.Lock()), "C19: a writer was admitted while a reader still holds the key")
-			vfAssert(vfOK(rw2.RUnlock()), "C19: reader unlock failed")
-			vfAssert(vfOK(rw1.Lock()), "C19: writer not admitted after all readers left")
+			vfAssert(rlock(rw1) && rlock(rw2) && rlock(rw1), "C19: readers are not admitted together")
+			vfAssert(!wlock(rw2), "C19: a writer was admitted while readers hold the key")
+			vfAssert(runlock(rw1) && runlock(rw1), "C19: reader unlock failed")
+			vfAssert(!wlock(rw1), "C19: a writer was admitted while a reader still holds the key")
+			vfAssert(runlock(rw2), "C19: reader unlock failed")
+			vfAssert(wlock(rw1), "C19: writer not admitted after all readers left")
 		}
 	}
 	vfReach("end")
